@@ -634,7 +634,7 @@ pub fn gen_case(seed: u64, idx: u64) -> (ThrCase, Rng) {
         gcfg.allow_state = rng.chance(1, 2);
         // many leaves should call out: filters / selects / customs are where a switch can land
         let mut g = gram::generate(&mut rng, &gcfg);
-        strip_unsupported(&mut g);
+        gram::strip_for_sync(&mut g);
         gram::fixup(&mut g, gcfg.nsym);
         let n = rng.range(2, 4) as usize;
         let mut pool = Vec::new();
@@ -663,30 +663,6 @@ pub fn gen_case(seed: u64, idx: u64) -> (ThrCase, Rng) {
         clients.push(v);
     }
     (ThrCase { subject, pool_syms, pool_text, clients, reader_seed }, rng)
-}
-
-/// The sync builder has no Rec / nested_delimiters: replace them by their first child / plain recovery.
-fn strip_unsupported(g: &mut G) {
-    use gram::Strat;
-    loop {
-        match g {
-            G::Recover(a, Strat::Nested(..)) => {
-                let inner = std::mem::replace(&mut **a, G::Empty);
-                *g = inner;
-            }
-            G::Rec(b) => {
-                let inner = std::mem::replace(&mut **b, G::Empty);
-                *g = inner;
-            }
-            G::RecRef => {
-                *g = G::Just(0);
-            }
-            _ => break,
-        }
-    }
-    for c in gram::children_mut(g) {
-        strip_unsupported(c);
-    }
 }
 
 fn trace_switch_digest(t: &[u32]) -> u64 {
